@@ -608,8 +608,19 @@ impl<'a> QGen<'a> {
         let lw = self.db.tables[a].schema.cols.len();
         let li: Vec<usize> = (0..lw).filter(|i| tys[*i] == Ty::Int).collect();
         let ri: Vec<usize> = (lw..tys.len()).filter(|i| tys[*i] == Ty::Int).collect();
-        let on = if !li.is_empty() && !ri.is_empty() && r.chance(3, 4) {
-            E::Bin(Op::Eq, Box::new(E::Col(*r.pick(&li))), Box::new(E::Col(*r.pick(&ri))))
+        let eq = |x: usize, y: usize| E::Bin(Op::Eq, Box::new(E::Col(x)), Box::new(E::Col(y)));
+        let on = if !li.is_empty() && !ri.is_empty() && (li.len() + ri.len() >= 3) && r.chance(1, 6) {
+            // OR of two equi-joins that share one side, sometimes with a further conjunct in a branch
+            let (x, p) = (*r.pick(&li), *r.pick(&ri));
+            let second = if ri.len() >= 2 && (li.len() < 2 || r.chance(1, 2)) {
+                eq(x, *ri.iter().find(|q| **q != p).unwrap())
+            } else {
+                eq(*li.iter().find(|y| **y != x).unwrap(), p)
+            };
+            let first = if r.chance(1, 3) { E::Bin(Op::And, Box::new(eq(x, p)), Box::new(g.boolean(r, 0))) } else { eq(x, p) };
+            if r.chance(1, 2) { E::Bin(Op::Or, Box::new(first), Box::new(second)) } else { E::Bin(Op::Or, Box::new(second), Box::new(first)) }
+        } else if !li.is_empty() && !ri.is_empty() && r.chance(3, 4) {
+            eq(*r.pick(&li), *r.pick(&ri))
         } else {
             g.boolean(r, 1)
         };
